@@ -1003,3 +1003,41 @@ def c10_families(quick, kinds_table):
             sk.decl.append("ASSUME(%s);" % cond)
         out.append(_reject("c10.mem.%s" % nm, build, "reject.mem"))
     return out
+
+
+# ---------------------------------------------------------------------------
+# C16 (number base): the same value spelled differently gives the same bytes
+
+def _respell(parts, style_map):
+    out = []
+    for p in parts:
+        if p[0] == "n":
+            out.append(("n", p[1], style_map.get(p[2], p[2]), p[3]))
+        else:
+            out.append(p)
+    return out
+
+
+def c16_base_families(quick):
+    out = []
+    seeds = []
+    seeds += [s for s in c03_families(True) if s.name in (
+        "c03.add.r.hex", "c03.and.m_dword_bpd_s1_hex.hex", "c03.test.r.hex", "c03.mov.r.hex", "c03.mov.r64.hex", "c03.imul.rri.hex",
+        "c03.push.i.hex", "c03.shl.r.hex", "c03.mov.m_word_bmd_s1_hex.neghex", "c03.add.r.neghex", "c03.mov.r64.neghex")]
+    seeds += [s for s in c02_families(True) if s.name in (
+        "c02.mov.mr.bpd_s1_hex", "c02.mov.mr.bmd_s1_hex", "c02.add.rm.bpixspd_s2_hex", "c02.lea.rm.bpsximd_s8_hex", "c02.lea.rm.sxipd_s8_hex",
+        "c02.lea.rm.d_s1_hex", "c02.lea.rm.md_s1_hex", "c02.vpaddd.yym.bpixspd_s2_hex", "c02.paddd.xm.bmd_s1_hex")]
+    seeds += [s for s in c05_families(True) if s.name in ("c05.jmp.nokw.hex", "c05.jne.nokw.neghex", "c05.call.nokw.hex", "c05.jmp.short.hex")]
+    import copy
+    for s in seeds:
+        for alt in ("dec", "hexz"):
+            sk = copy.deepcopy(s)
+            sk.name = "c16.base.%s.vs_%s" % (s.name, alt)
+            sk.family = "spelling.base"
+            sk.alt_parts = _respell(sk.parts, {"hex": alt})
+            if alt == "hexz":
+                for p in sk.parts:
+                    if p[0] == "n":
+                        sk.decl.append("ASSUME(N%d < (1ul << 48));" % p[1])
+            out.append(sk)
+    return out
